@@ -7,6 +7,7 @@ import ScyllaVerif.Model.Tablets
 import ScyllaVerif.Model.Routing
 import ScyllaVerif.Drive.Topology
 import ScyllaVerif.Drive.C05
+import ScyllaVerif.Drive.C03
 /-! Line-protocol driver for C12 (route of a token-aware request).  Rust side: `harness/src/c12.rs`.
 
 ```
@@ -25,16 +26,29 @@ plan[.<tag>] <topology> <strategies> <tablets> <config> <request> <tbl> <samples
 
 hist[.<tag>] <topology> <strategies> <ops> <config> <request> <tbl> <samples>
     ops := "-" | op ("+" op)*     op := "T" ks "." tbl "@" tablet   (one `update_tablets`; replicas may name unknown hosts)
+                                      | "B" ks "." tbl "@" hex      (the same, as the bytes of the `tablets-routing-v1`
+                                                                      custom-payload entry of a response)
                                       | "E" ks "." tbl              (table declared in the tablet-based keyspace)
                                       | "R" topology                (metadata refresh = `ClusterState::new_updated`)
+                                      | "G" topology | "H" topology (the same / `new_with_updated_topology` with a host
+                                                                      filter that ACCEPTS every peer; not mixed with R)
     the observation (same implementation / model lines as `plan`) is made on the state after the last op; a node object
     survives a refresh iff its datacenter, rack and position in the peer list (= address) are unchanged.
+
+stmt[.<tag>] <topology> <strategies> <tablets> <config> <stmt> <values> <exec> <samples>
+    stmt   := <cdc 0|1> "/" <bind-marker indexes of the key columns in key order|-> "/" <ks> "/" <tbl> ["/" <lwt 0|1>]   (distinct indexes)
+    values := value ("," value)*   (C03 syntax: hex | - | N | U | z<len>x<hh>)     exec := consistency "/" serial "/" pref
+  impl : `tok=<token|none|err_..>` then (unless the token computation failed) the `plan` observation for the RoutingInfo
+         `Session::execute` builds: token = `PreparedStatement::calculate_token` on the forged PREPARED + bound values,
+         table = `get_table_spec()`, LWT = `is_confirmed_lwt()`.
+  model: `sessionRoutingInfo` (C03's token model inside the glue), then as `plan`.
 
 refill[.<tag>] <S<k>|H<k>> <p|n> <script>     script := step (";" step)*, first step N.., last step W
     N<nr>.<msb>  the node (re)starts with these sharding parameters (nr = 0: a node without shards); all connections die
     P<nr>.<msb>  the parameters change for connections accepted from now on     A<s>,<s>..  shards of the next connections
     M<d>         connections on the shard-aware port land on (source port + d) % nr     C<s>  the node closes the pooled
-    connection that serves shard s     W  wait until the pool has settled, then look
+    connection that serves shard s     W  wait until the pool has settled, then look     Q<s>,..  the same, probing these
+    shard numbers (e.g. numbers of the sharder the node had before a restart: the reshard race)
   impl : the node's record of events and the looks, in order: `r<id>:<shard>/<nr>/<msb>[q]` | `r<id>:-[q]` (READY sent; q =
          through the shard-aware port), `b<id>` (closed by the node), `D[cnt=<pool size>,nr=<n|->,<shard>:<conn id>:<reported>,..]`
   model: runs `Refiller.step` on the events and CHECKS every look against its own buckets (size, published sharder, every
@@ -217,16 +231,55 @@ def runPlan (topo kss tabs cfg req tbl nSamples impl : String) : String :=
     observe (mkRCluster ps ks tables) cfg.1 rq tbl impl
   | _, _, _, _, _, _, _ => "bad-case"
 
+/-! ### stmt cases: `Session::execute`'s routing info from a prepared statement and bound values -/
+
+def parseExec (s : String) : Option ExecM :=
+  match s.splitOn "/" with
+  | [cons, ser, p] =>
+    match parseConsistency cons, parsePref p with
+    | some cons, some p => if ser == "-" || ser == "s" || ser == "l" then some ⟨cons, p⟩ else none
+    | _, _ => none
+  | _ => none
+
+/-- `<cdc 0|1>/<marker indexes of the key columns, in key order|->/<ks>/<tbl>[/<lwt 0|1>]` -/
+def parseStmt (s : String) : Option PreparedM :=
+  let go (cdc wire ks tb : String) (lwt : Bool) : Option PreparedM :=
+    match (if cdc == "0" then some false else if cdc == "1" then some true else none), parseNatList wire, ks.toNat?, tb.toNat? with
+    | some cdc, some w, some ks, some tb =>
+      if w.eraseDups.length == w.length && w.all (· < 4096) then
+        some ⟨PartitionKey.pkIndexesOfWire w, cdc, some (ks, tb), lwt⟩
+      else none
+    | _, _, _, _ => none
+  match s.splitOn "/" with
+  | [cdc, wire, ks, tb] => go cdc wire ks tb false
+  | [cdc, wire, ks, tb, lwt] =>
+    if lwt == "1" then go cdc wire ks tb true else if lwt == "0" then go cdc wire ks tb false else none
+  | _ => none
+
+def runStmt (topo kss tabs cfg stmt vals exec nSamples impl : String) : String :=
+  match parseTopologyEx topo, parseStrategies kss, parseTables tabs, parseConfig cfg, parseStmt stmt,
+      (vals.splitOn ",").mapM ScyllaVerif.Drive.C03.parseValue, parseExec exec, nSamples.toNat? with
+  | some ps, some ks, some tables, some cfg, some st, some values, some ex, some _ =>
+    if ps.any (fun p => (parseFlags p.2).isNone) then "bad-case" else
+    match sessionRoutingInfo st values ex with
+    | .error e => "tok=" ++ (ScyllaVerif.Drive.C03.showTokenErr e).replace " " "_"
+    | .ok r =>
+      let tokS := match r.rq.token with | some t => toString t | none => "none"
+      s!"tok={tokS} " ++ observe (mkRCluster ps ks tables) cfg.1 r.rq r.tbl impl
+  | _, _, _, _, _, _, _, _ => "bad-case"
+
 /-! ### hist cases: tablet updates interleaved with metadata refreshes -/
 
 /-- One step of a history. -/
 inductive HOp where
   /-- `update_tablets` with one tablet of table `k<ks>.t<tbl>` -/
   | learn (ks tbl : Nat) (t : Int × Int × List (Nat × Nat))
+  /-- tablet feedback as bytes: the `tablets-routing-v1` entry of a response's custom payload -/
+  | payload (ks tbl : Nat) (bytes : List UInt8)
   /-- the table exists in the (tablet-based) keyspace without any tablet learnt -/
   | declare (ks tbl : Nat)
-  /-- a metadata refresh to this topology -/
-  | refresh (ps : List (Peer × String))
+  /-- a metadata refresh to this topology; `acc`: the host filter accepts every peer (`G` / `H` ops) -/
+  | refresh (ps : List (Peer × String)) (acc : Bool)
 
 def parseKsTbl (s : String) : Option (Nat × Nat) :=
   match s.splitOn "." with
@@ -242,8 +295,15 @@ def parseHOp (s : String) : Option HOp :=
       | some (ks, tb), some t => some (.learn ks tb t)
       | _, _ => none
     | _ => none
+  else if s.startsWith "B" then
+    match (s.drop 1).toString.splitOn "@" with
+    | [name, hexs] => match parseKsTbl name, parseHex hexs with
+      | some (ks, tb), some bs => some (.payload ks tb bs)
+      | _, _ => none
+    | _ => none
   else if s.startsWith "E" then (parseKsTbl (s.drop 1).toString).map (fun (ks, tb) => .declare ks tb)
-  else if s.startsWith "R" then (parseTopologyEx (s.drop 1).toString).map .refresh
+  else if s.startsWith "R" then (parseTopologyEx (s.drop 1).toString).map (.refresh · false)
+  else if s.startsWith "G" || s.startsWith "H" then (parseTopologyEx (s.drop 1).toString).map (.refresh · true)
   else none
 
 def parseHOps (s : String) : Option (List HOp) :=
@@ -251,29 +311,39 @@ def parseHOps (s : String) : Option (List HOp) :=
 
 
 /-- The known nodes of a peer list: the hook derives the address from the position. -/
-def peersWithAddr (ps : List (Peer × String)) : List ((Node × Nat) × Bool) :=
-  ps.zipIdx.map (fun (p, i) => ((p.1.node, i), false))      -- hook nodes: rejected by the host filter
+def peersWithAddr (acc : Bool) (ps : List (Peer × String)) : List ((Node × Nat) × Bool) :=
+  ps.zipIdx.map (fun (p, i) => ((p.1.node, i), acc))
 
 /-- The model's view of one op (`declare` only contributes to the keyspace metadata). -/
 def HOp.toStateOp : HOp → Option StateOp
   | .learn ks tb t => some (.learn (ksName ks, tblName tb) t.1 t.2.1 t.2.2)
+  | .payload ks tb bs =>
+    -- `RawTablet::from_custom_payload` (C15's model of the cell); a rejected payload teaches nothing
+    match Tablets.parsePayload bs with
+    | .ok (f, l, raw) => some (.learn (ksName ks, tblName tb) f l raw)
+    | .error _ => none
   | .declare _ _ => none
-  | .refresh ps => some (.refresh (peersWithAddr ps))
+  | .refresh ps acc => some (.refresh (peersWithAddr acc ps))
 
 def runHist (topo kss opsS cfg req tbl nSamples impl : String) : String :=
   match parseTopologyEx topo, parseStrategies kss, parseHOps opsS, parseConfig cfg, parseRequest req, tbl.toNat?,
       nSamples.toNat? with
   | some ps0, some ks, some ops, some cfg, some rq, some tbl, some _ =>
-    let topos : List (List (Peer × String)) := ps0 :: ops.filterMap (fun o => match o with | .refresh ps => some ps | _ => none)
+    let topos : List (List (Peer × String)) := ps0 :: ops.filterMap (fun o => match o with | .refresh ps _ => some ps | _ => none)
+    -- a history is driven with rejected peers (R) or with accepted ones (G / H; every node then reads as enabled: no `d`)
+    let acc := ops.any (fun o => match o with | .refresh _ a => a | _ => false)
+    if acc && (ops.any (fun o => match o with | .refresh _ a => !a | _ => false) ||
+        topos.flatten.any (fun p => p.2.contains 'd')) then "bad-case" else
     let allPeers := topos.flatten
     -- flags well-formed; a host keeps its sharder for the whole history (it is a property of the node)
     if allPeers.any (fun p => (parseFlags p.2).isNone) then "bad-case" else
     if allPeers.any (fun p => allPeers.any (fun q => q.1.node.id == p.1.node.id && parseFlags q.2 != parseFlags p.2)) then "bad-case" else
     let declared : List (Nat × Nat) := (ops.filterMap (fun o => match o with
-      | .learn ks tb _ => some (ks, tb) | .declare ks tb => some (ks, tb) | .refresh _ => none)).eraseDups
+      | .learn ks tb _ => some (ks, tb) | .payload ks tb _ => some (ks, tb) | .declare ks tb => some (ks, tb)
+      | .refresh _ _ => none)).eraseDups
     let kssMeta : List (String × Bool × List String) := ks.zipIdx.map (fun (_, i) =>
       (ksName i, declared.any (·.1 == i), (declared.filter (·.1 == i)).map (fun d => tblName d.2)))
-    let st := (RState.init kssMeta (peersWithAddr ps0)).run kssMeta (ops.filterMap HOp.toStateOp)
+    let st := (RState.init kssMeta (peersWithAddr acc ps0)).run kssMeta (ops.filterMap HOp.toStateOp)
     let psFinal := topos.getLast?.getD ps0
     observe (RCluster.ofState (mkRCluster psFinal ks []) st declared) cfg.1 rq tbl impl
   | _, _, _, _, _, _, _ => "bad-case"
@@ -412,8 +482,10 @@ def rscriptOk (s : String) : Bool :=
     if st.startsWith "N" || st.startsWith "P" then (parseRParams rest).isSome
     else if st.startsWith "A" then ((rest.splitOn ",").mapM String.toNat?).any (fun l => l.all (· < 65536))
     else if st.startsWith "M" || st.startsWith "C" then (rest.toNat?).any (· < 64)
+    else if st.startsWith "Q" then ((rest.splitOn ",").mapM String.toNat?).any (fun l => l.all (· < 4294967296))
     else st == "W"
-  steps.all ok && (steps.head?.any (·.startsWith "N")) && steps.getLast? == some "W"
+  steps.all ok && (steps.head?.any (·.startsWith "N")) &&
+    (steps.getLast?.any (fun l => l == "W" || l.startsWith "Q"))
 
 def runRefill (sizeS portS script impl : String) : String :=
   match parseSize sizeS with
@@ -446,6 +518,8 @@ def run (case impl : String) : String :=
     if head == "plan" || head.startsWith "plan." then runPlan topo kss tabs cfg req tbl nSamples impl
     else if head == "hist" || head.startsWith "hist." then runHist topo kss tabs cfg req tbl nSamples impl
     else "bad-case"
+  | [head, topo, kss, tabs, cfg, stmt, vals, exec, nSamples] =>
+    if head == "stmt" || head.startsWith "stmt." then runStmt topo kss tabs cfg stmt vals exec nSamples impl else "bad-case"
   | [head, size, port, script] =>
     if head == "refill" || head.startsWith "refill." then runRefill size port script impl else "bad-case"
   | [head, nr, msb, size, port, reqs] =>
